@@ -57,9 +57,9 @@ def _run_cfg(cond, raw, prods, v):
 
 def c13_cfg_p2(t: P2, p: int) -> bool:
     """
+    pre: pinned(p=p, h0=t[0], l0=t[1])
     pre: 0 <= p <= 2
     pre: cfg_canonical(t, p, 2, 2, 2)
-    pre: pinned(p=p, h0=t[0], l0=t[1])
     post: _
     """
     prods = enc.decode_cfg(t, p, 2, 2, 2)
@@ -68,9 +68,9 @@ def c13_cfg_p2(t: P2, p: int) -> bool:
 
 def c13_cfg_p3(t: P3, p: int) -> bool:
     """
+    pre: pinned(h0=t[0], l0=t[1], s0=t[2], h1=t[4])
     pre: p == 3
     pre: cfg_canonical(t, p, 2, 2, 2)
-    pre: pinned(h0=t[0], l0=t[1], s0=t[2], h1=t[4])
     post: _
     """
     prods = enc.decode_cfg(t, p, 2, 2, 2)
@@ -171,9 +171,9 @@ def _run_pda(cond, raw, trans, finals, names, stack):
 
 def c13_pda_m2(t: T10, m: int, finals: int, k: int, names: int, stack: int) -> bool:
     """
+    pre: pinned(m=m, finals=finals, k=k, names=names, stack=stack, f0=t[0], i0=t[1], p0=t[2], c0=t[4])
     pre: 0 <= m <= 2 and 0 <= finals < 4 and 1 <= k <= 2 and 0 <= names < 4 and 0 <= stack < 3
     pre: pda_canonical(t, m, 2, k)
-    pre: pinned(m=m, finals=finals, k=k, names=names, stack=stack, f0=t[0], i0=t[1], p0=t[2], c0=t[4])
     post: _
     """
     raw = (t, m, finals, k, names, stack)
@@ -185,10 +185,10 @@ def c13_pda_m2(t: T10, m: int, finals: int, k: int, names: int, stack: int) -> b
 
 def c13_pda_m3(t: T15, m: int, finals: int) -> bool:
     """
+    pre: pinned(finals=finals, i0=t[1], c0=t[4], f1=t[5], i1=t[6])
     pre: m == 3 and 0 <= finals < 4
     pre: pda_canonical(t, m, 2, 1)
     pre: t[0] == 0 and t[2] == 0
-    pre: pinned(finals=finals, i0=t[1], c0=t[4], f1=t[5], i1=t[6])
     post: _
     """
     raw = (t, m, finals)
